@@ -98,6 +98,7 @@ class Ghost:
         self.yields = []
         self.answers = []  # (kind, payload) in order
         self.look = None  # the look-ahead byte term (pulled, not sent)
+        self.root_len = 1  # length of the root path the caller asked for (the command code is its child "commandCode")
 
 
 def mk_events(ctx, root_path):
@@ -121,13 +122,13 @@ def mk_events(ctx, root_path):
     }
 
 
-def unit_pump(mode, tpm_type_name="Command"):
+def unit_pump(mode, tpm_type_name="Command", root="default"):
     from tpmstream.common.path import Path, PathNode
     from tpmstream.common.error import ConstraintViolatedError
     from tpmstream.spec.commands import Command, CommandResponseStream
 
     M = mod("tpmstream.io.binary.marshal")
-    label = f"PUMP/{tpm_type_name}/{mode}"
+    label = f"PUMP/{tpm_type_name}/{mode}" + ("" if root == "default" else "/custom-root")
     u = UnitResult(label)
     u.functions = FUNCS
     strict = mode == "strict"
@@ -136,7 +137,9 @@ def unit_pump(mode, tpm_type_name="Command"):
 
     def run(ctx):
         G = Ghost(ctx)
-        root_path = Path(PathNode(""))
+        # the caller may place the decoded value anywhere in a path (root_path); what the pump recognises by path must follow
+        root_path = Path(PathNode("")) if root == "default" else Path((PathNode("outer"), PathNode("msg", 3)))
+        G.root_len = len(root_path)
         EV = mk_events(ctx, root_path)
         source = AbsSource(ctx) if ctx.fork([z3.BoolVal(True), z3.BoolVal(True)], "kind-of-source") == 0 else AbsGenSource(ctx)
         OBJ = object()
@@ -274,6 +277,8 @@ def unit_pump(mode, tpm_type_name="Command"):
         kw = {"abort_on_error": strict}
         cc_in = object()
         pe_in = object()
+        if root != "default":
+            kw["root_path"] = root_path
         igen = run_sync(I.call(M.marshal, (tpm_type, source), {"command_code": cc_in, "parameter_encryption": pe_in, **kw}))
         outcome = drive_pump(ctx, igen, G, site)
         # wiring of the processor
@@ -311,7 +316,7 @@ def expected_cc(G, upto=None):
     """value of the last yielded ...commandCode event, or None"""
     cc = None
     for y in G.yields[:upto]:
-        if type(y).__name__ == "MarshalEvent" and len(y.path) == 2 and y.path[-1].name == "commandCode":
+        if type(y).__name__ == "MarshalEvent" and len(y.path) == G.root_len + 1 and y.path[-1].name == "commandCode":
             cc = y.value
     return cc
 
